@@ -5,7 +5,7 @@ import fcntl, glob, hashlib, importlib, json, os, re, shutil, subprocess, sys, t
 ROOT = os.path.dirname(os.path.abspath(__file__))
 REPO = os.environ.get("VERIF_REPO", "/repo")
 LEAN = os.path.join(ROOT, "lean")
-NUTSMODEL = os.path.join(LEAN, ".lake", "build", "bin", "nutsmodel")
+BIN = os.path.join(LEAN, ".lake", "build", "bin")
 ALLOWED_AXIOMS = {"propext", "Classical.choice", "Quot.sound"}
 FORBIDDEN = re.compile(r"\bsorry\b|\badmit\b|^\s*axiom\s|native_decide|bv_decide|implemented_by|\bunsafe\s|maxHeartbeats\s+0")
 
@@ -93,7 +93,8 @@ class Ctx:
     def build_and_audit(self, modules, exe=True):
         """build property modules (+ driver), audit axioms of every theorem in them, scan for forbidden tokens.
         Returns dict theorem -> axioms for theorems that exist. Failing modules are recorded as failed obligations."""
-        targets = list(modules) + (["nutsmodel"] if exe else [])
+        exe_t = "nm_" + self.id
+        targets = list(modules) + ([exe_t] if exe else [])
         ok, out = self.lake(targets)
         self.lake_log = out
         thms = {}
@@ -109,7 +110,7 @@ class Ctx:
                 if ok1:
                     good.append(m)
             if exe:
-                self.lake(["nutsmodel"])
+                self.lake([exe_t])
             modules = good
         else:
             self.failed_modules = []
@@ -179,7 +180,7 @@ class Ctx:
 
     def model(self, area, ops, out):
         with open(ops) as fi, open(out, "w") as fo:
-            p = subprocess.run([NUTSMODEL, area], stdin=fi, stdout=fo, stderr=subprocess.PIPE, text=True)
+            p = subprocess.run([os.path.join(BIN, "nm_" + area)], stdin=fi, stdout=fo, stderr=subprocess.PIPE, text=True)
         return p.returncode == 0, p.stderr
 
     @staticmethod
